@@ -21,6 +21,7 @@ TRANSFORMS = [
     "only with option `nested`: the impl block is looked up inside the body of a metavariable-free `macro_rules!` definition (define_frost_core, define_lms_core: plain Rust text that every instantiating module expands verbatim); the names it takes from the instantiating module are declared in the unit",
     "only with option `destruct` (this Verus does not support destructuring assignment): a statement `(p0, p1, ..) = e;` -> `let (vdaK_0, vdaK_1, ..) = e; p0 = vdaK_0; p1 = vdaK_1; ..` (K = ordinal of the statement; a `_` place stays `_` in the pattern and gets no assignment). This is the desugaring the Rust reference gives for destructuring assignment: the right-hand side is evaluated first, then the places are assigned left to right",
     "only with option `localconst` (a const item inside a function body whose initialiser calls a const fn cannot be evaluated in specifications by this Verus): `const NAME: T = e;` at statement position inside the body -> `let NAME: T = e;` (same value, computed when the statement is reached instead of at compile time)",
+    "only with option `nestedret=<r>`: for every fn item nested inside the extracted function body, `-> T` -> `-> (<r>: T)` so that the contract woven at anchor `nested <fn>` can name its result (nested fn items are otherwise kept in place, verbatim)",
     "only with option `lebytes` (this Verus cannot attach a specification to the std byte-order conversions, whose signatures use the const expression `[u8; size_of::<T>()]`): `<int>::from_le_bytes(` -> `<int>_from_le_bytes(`, `<int>::from_be_bytes(` -> `<int>_from_be_bytes(` (int in u16/u32/u64/u128), and the method calls `.to_le_bytes()` / `.to_be_bytes()` -> `.vto_le_bytes()` / `.vto_be_bytes()`; the twins are declared in contracts/spec/lebytes_decl.vrs with the std semantics as ASSUMED contracts (trusted: std)",
     "only with option `revloops=<T>` (this Verus has no specification for Rev<Range>): `for v in (a..b).rev() {` -> `let mut vrev<k>: T = b; while vrev<k> > a { vrev<k> = vrev<k> - 1; let v = vrev<k>;` (k-th such loop; a, b are the literal or identifier bounds as written; the loop body is unchanged; same iteration sequence b-1, b-2, .., a)",
 ]
@@ -445,7 +446,7 @@ class Woven:
         self.name = name
 
 
-def normalise_fn(fn_src, cfg, rename=None, ret_name=None, debug_assert_verus=True, vis="pub ", revloops=None, lebytes=False, destruct=False, localconst=False):
+def normalise_fn(fn_src, cfg, rename=None, ret_name=None, debug_assert_verus=True, vis="pub ", revloops=None, lebytes=False, destruct=False, localconst=False, nestedret=None):
     """Apply the TRANSFORMS to a raw fn slice; returns (text, undo) where undo
     is info the erasure check needs."""
     s = resolve_cfg(fn_src, cfg)
@@ -513,6 +514,33 @@ def normalise_fn(fn_src, cfg, rename=None, ret_name=None, debug_assert_verus=Tru
             if t.kind == 'id' and t.text == 'const' and toks[i - 1].kind == 'op' and toks[i - 1].text in (';', '{', '}') \
                     and toks[i + 1].kind == 'id' and toks[i + 2].kind == 'op' and toks[i + 2].text == ':':
                 s = s[:t.start] + 'let' + s[t.end:]
+    if nestedret:
+        toks = tokenize(s)
+        first = True
+        edits = []
+        for i, t in enumerate(toks):
+            if t.kind == 'id' and t.text == 'fn':
+                if first:
+                    first = False
+                    continue
+                d = 0
+                arrow = None
+                j = i
+                while True:
+                    x = toks[j]
+                    if x.kind == 'op' and x.text in ('(', '['):
+                        d += 1
+                    elif x.kind == 'op' and x.text in (')', ']'):
+                        d -= 1
+                    elif x.kind == 'op' and x.text == '->' and d == 0:
+                        arrow = j
+                    elif x.kind == 'op' and x.text == '{' and d == 0:
+                        break
+                    j += 1
+                if arrow is not None:
+                    edits.append((toks[arrow + 1].start, toks[j - 1].end))
+        for a, b in reversed(edits):
+            s = s[:a] + "(" + nestedret + ": " + s[a:b] + ")" + s[b:]
     return s, orig_name
 
 
@@ -577,7 +605,7 @@ def erase_tokens(fn_text):
     return [t.text for t in tokenize('\n'.join(lines))]
 
 
-def source_tokens(fn_src, cfg, rename=None, ret_name=None, debug_assert_verus=True, vis="pub ", revloops=None, lebytes=False, destruct=False, localconst=False):
+def source_tokens(fn_src, cfg, rename=None, ret_name=None, debug_assert_verus=True, vis="pub ", revloops=None, lebytes=False, destruct=False, localconst=False, nestedret=None):
     """Tokens the erasure check expects: the raw slice with the documented
     transformations applied mechanically *on tokens* (independent code path
     from normalise_fn's text surgery)."""
@@ -704,6 +732,34 @@ def source_tokens(fn_src, cfg, rename=None, ret_name=None, debug_assert_verus=Tr
         for i in range(b0 + 1, len(toks) - 2):
             if toks[i] == 'const' and toks[i - 1] in (';', '{', '}') and toks[i + 2] == ':' and re.match(r'^[A-Za-z_]\w*$', toks[i + 1]):
                 toks[i] = 'let'
+    if nestedret:
+        out = []
+        i = 0
+        seen = 0
+        while i < len(toks):
+            if toks[i] == 'fn':
+                seen += 1
+                if seen > 1:
+                    d = 0
+                    j = i
+                    arrow = None
+                    while True:
+                        if toks[j] in ('(', '['):
+                            d += 1
+                        elif toks[j] in (')', ']'):
+                            d -= 1
+                        elif toks[j] == '->' and d == 0:
+                            arrow = j
+                        elif toks[j] == '{' and d == 0:
+                            break
+                        j += 1
+                    if arrow is not None:
+                        out += toks[i:arrow + 1] + ['(', nestedret, ':'] + toks[arrow + 1:j] + [')']
+                        i = j
+                        continue
+            out.append(toks[i])
+            i += 1
+        toks = out
     return toks
 
 
@@ -858,6 +914,23 @@ def weave(fn_text, spec=None, hints=()):
                     raise SliceError("lost anchor: line %r #%d" % (sub, k))
             p = after_line_end(pos) if kind == 'line' else line_start(pos)
             inserts.append((p, _mark_lines(text, "        "), 'h'))
+        elif kind == 'nested':
+            name = anchor[1]
+            q = None
+            for j in range(body_open + 1, body_close - 1):
+                if toks[j].kind == 'id' and toks[j].text == 'fn' and toks[j + 1].text == name:
+                    d = 0
+                    q = j
+                    while not (toks[q].kind == 'op' and toks[q].text == '{' and d == 0):
+                        if toks[q].kind == 'op' and toks[q].text in ('(', '['):
+                            d += 1
+                        elif toks[q].kind == 'op' and toks[q].text in (')', ']'):
+                            d -= 1
+                        q += 1
+                    break
+            if q is None:
+                raise SliceError("lost anchor: nested fn %s" % name)
+            inserts.append((toks[q].start, '\n' + _mark_lines(text, "            ") + "        ", 'spec'))
         else:
             raise SliceError("unknown anchor %r" % (anchor,))
     out = fn_text
